@@ -237,7 +237,10 @@ func (p RowPlan) NumRows() int {
 // lengths come from RunLens or are 1.
 func Rows(t *rapid.T, root *ref.Node, maxPool, maxRows int, o ValueOpts) RowPlan {
 	var p RowPlan
-	np := rapid.IntRange(0, maxPool).Draw(t, "npool")
+	np := rapid.IntRange(1, maxPool).Draw(t, "npool")
+	if rapid.IntRange(0, 19).Draw(t, "emptyfile") == 0 {
+		np = 0
+	}
 	for i := 0; i < np; i++ {
 		oo := o
 		switch rapid.IntRange(0, 3).Draw(t, "nullmode") {
@@ -258,11 +261,11 @@ func Rows(t *rapid.T, root *ref.Node, maxPool, maxRows int, o ValueOpts) RowPlan
 		return p
 	}
 	total := 0
-	nruns := rapid.IntRange(0, 12).Draw(t, "nruns")
+	nruns := rapid.IntRange(1, 12).Draw(t, "nruns")
 	for i := 0; i < nruns && total < maxRows; i++ {
 		idx := rapid.IntRange(0, np-1).Draw(t, "ri")
 		n := 1
-		if rapid.IntRange(0, 2).Draw(t, "long") == 0 {
+		if rapid.IntRange(0, 1).Draw(t, "long") == 0 {
 			n = RunLens[rapid.IntRange(0, len(RunLens)-1).Draw(t, "rl")]
 		}
 		if total+n > maxRows {
